@@ -24,6 +24,7 @@ pub enum DiagnosticInfoMessage {
     ReadonlyShouldHaveOneTypeArgument,
     InvalidNumberOfTypeParametersForArray,
     CannotHaveRecursiveGenericTypes,
+    RecursiveNamespaceValue(String),
     ObjectHasConflictingKeyValueInIntersection,
     CannotResolveNamedImport,
     EnumMemberNotFound,
@@ -522,6 +523,9 @@ impl DiagnosticInfoMessage {
             }
             DiagnosticInfoMessage::CannotHaveRecursiveGenericTypes => {
                 "Cannot have recursive generic types".to_string()
+            }
+            DiagnosticInfoMessage::RecursiveNamespaceValue(s) => {
+                format!("The value of the namespace of {s} refers to itself")
             }
             DiagnosticInfoMessage::NestedTplLitToTplLit => {
                 "Nested template literal types are not supported when converting to template literal".to_string()
